@@ -1,5 +1,5 @@
 SPECIFICATION Spec
-CONSTANTS MaxEdit = 2  MaxInv = 3  MaxKill = 1  MaxFail = 1  GenDepth = 0
+CONSTANTS MaxEdit = 2  MaxInv = 3  MaxKill = 1  MaxFail = 0  GenDepth = 0
 CONSTANT Weak = {"PruneBeforeReset"}
 VIEW view
 CONSTRAINT CexPrint
